@@ -30,7 +30,7 @@ Fixpoint run (h : history) (rs : list request) : list bool :=
 (* ---------------------------------------------------------------------------------------------
    NOT the code - the variant the property excludes: a verdict cache.  A certificate that passed the
    full evaluation is remembered; a later request on a RESUMED session presenting a remembered
-   certificate is admitted without looking at the peer address. *)
+   certificate is let in without looking at the peer address. *)
 Fixpoint blocks_raw_eqb (x y : list (bs * N)) : bool :=
   match x, y with
   | [], [] => true
@@ -56,7 +56,7 @@ Definition cache_of (h : history) : list rcert := fold_left (fun c r => fst (ste
 Definition auth_ip_cached (h : history) (conn : connstate) (c : rcert) (p : peer) : bool :=
   snd (step_cached (cache_of h) {| rq_conn := conn; rq_peer := p; rq_cert := c |}).
 
-(* correspondence helper: one observed step = (blocks as requested, verified, resumed, peer, admitted) *)
+(* correspondence helper: one observed step = (blocks as requested, verified, resumed, peer, let in) *)
 Definition obs_step := (list netblock * bool * bool * peer * bool)%type.
 Definition req_of (s : obs_step) : request :=
   let '(bl, v, d, p, _) := s in
@@ -70,7 +70,7 @@ Fixpoint bools_eqb (x y : list bool) : bool :=
   end.
 (* the sequence disagrees with the model *)
 Definition seq_bad (s : list obs_step) : bool := negb (bools_eqb (run [] (map req_of s)) (map obs_of s)).
-(* the property predicate on the observation: some request of the sequence was admitted although its
+(* the property predicate on the observation: some request of the sequence was let in although its
    connection carries no verified chain or its peer lies in none of the requested netblocks *)
 Definition step_violates (s : obs_step) : bool :=
   let '(bl, v, _, p, o) := s in o && negb (v && existsb (fun b => contains b p) bl).
